@@ -157,6 +157,13 @@ func wrapGadgets(t *rapid.T, cfg GenCfg, e expr.Expr) expr.Expr {
 		case 1:
 			// look-alike: zero on the left
 			e = expr.NewBinary(expr.Add, expr.Zero, e, w)
+		case 2:
+			// look-alike: a constant wider than 8 bytes whose low 8 bytes are zero
+			// (k * 2^64): zero for whoever reads it as uint64, not zero
+			cw := rapid.IntRange(9, 16).Draw(t, "gbigw")
+			bs := make([]byte, cw)
+			bs[rapid.IntRange(8, cw-1).Draw(t, "gbigpos")] = rapid.ByteRange(1, 255).Draw(t, "gbigb")
+			e = expr.NewBinary(expr.Add, e, expr.NewConst(bs, expr.Width(cw)), w)
 		default:
 			e = expr.NewBinary(expr.Add, e, expr.Zero, w)
 		}
